@@ -9,7 +9,7 @@ echo "== tests WITH mutation:"; /venv/bin/python -m pytest -q -p no:cacheprovide
 echo "== demo WITH mutation:"; SRC=/repo/src /venv/bin/python $OUT/m${K}_demo.py > /tmp/demo_mut.txt 2>&1; echo "exit $?"; tail -3 /tmp/demo_mut.txt
 cd /verif
 for P in "$@"; do
-  /venv/bin/python harness/check.py $P --tier ${TIER:-quick} 2>&1 | grep -v conda | grep -E "VIOLATION|^C[0-9]+ tier" | cut -c1-220
+  /venv/bin/python harness/check.py $P --tier ${TIER:-quick} ${EXTRA:---model-only} 2>&1 | grep -v conda | grep -E "VIOLATION|^C[0-9]+ tier" | cut -c1-220
 done
 git -C /repo checkout -- .
 echo "== reverted; status: $(git -C /repo status --porcelain --untracked-files=no | wc -l) dirty files"
